@@ -284,13 +284,16 @@ def aliasing(ctx, rng):
     T = type(m)
     junk_key = (97,) if tn.endswith("Matrix") else ("junk",)
     # ---- objects handed out must be independent of the model -------------------------------------------------
-    handed = {"copy": m.copy(), "ctor": T(m), "variables": m.variables}
+    handed = {"copy": m.copy(), "ctor": T(m), "variables": m.variables, "subs": m.subs({}), "round": round(m, 6)}
     for a in ("mapping", "reverse_mapping", "constraints"):
         if hasattr(m, a):
             handed[a] = getattr(m, a)
     for name, obj in handed.items():
         ctx.count("aliasing-probes")
-        if name in ("copy", "ctor"):
+        if name in ("copy", "ctor", "subs", "round"):
+            if obj is m:
+                ctx.violation("%s:returns-the-same-object" % name, "%s returned the model itself" % name, w)
+                return
             # (name and an un-refreshed mapping are not part of what a copy must reproduce)
             ps = public_state(obj)
             if any(ps.get(a) != before.get(a) for a in ("type", "terms", "constraints", "num_ancillas")):
